@@ -122,6 +122,13 @@ loop:
 	}
 	if kv["copycheck"] == 1 && last != nil {
 		copyCheck(b.id, model, last)
+		copyRandomCheck(b.id, func() (nextroute.Solution, error) {
+			m, err := factory.NewModel(input, opts)
+			if err != nil {
+				return nil, err
+			}
+			return nextroute.NewSolution(m)
+		})
 	}
 	if kv["output"] == 1 && last != nil {
 		js, _ := json.Marshal(factory.ToSolutionOutput(last))
